@@ -9,7 +9,7 @@ claims = base.prefix_claims(*"C08.,C01.,C02.,C03.,C09.".split(","))
 execute = base.dispatch_execute
 prepare_replay = base.dispatch_prepare
 sample = base.dispatch_sample
-ORACLES = [x for x in "".split(",") if x]
+ORACLES = ["admissible"]
 ALGOS = None
 
 
